@@ -13,7 +13,7 @@ func init() { props["C02"] = checkC02 }
 // version layer answered by the implementation.
 func checkC02(ctx *Ctx) {
 	res := ctx.Res
-	res.Rule = "per ecosystem (maven has no comparator syntax): bounds = pool members inside the property's scope clause; every supported comparator spelling x every bound x every pool probe: the range must parse and Contains must equal sat(op, Compare(probe, bound)); random AND lists (2-4 constraints) for every documented AND separator must equal the conjunction, OR groups (npm, composer, conan) the disjunction; R-layer correspondence (accept, String, Contains) of modelled ecosystems with NewVersion/Compare answered by the implementation. non-trivial = distinct (range text, probe) pairs whose probe differs textually from every bound"
+	res.Rule = "per ecosystem (maven has no comparator syntax): bounds = pool members inside the property's scope clause; every supported comparator spelling x every bound x every pool probe: the range must parse and Contains must equal sat(op, Compare(probe, bound)); random AND lists (2-4 constraints, 5% of them 12-40) for every documented AND separator must equal the conjunction, OR groups (npm, composer, conan; 2-3 groups, 6% of them 8-20) the disjunction; R-layer correspondence (accept, String, Contains) of modelled ecosystems with NewVersion/Compare answered by the implementation. non-trivial = distinct (range text, probe) pairs whose probe differs textually from every bound"
 	nPool, nBounds, nAnd := 70, 24, 160
 	if !ctx.Quick {
 		nPool, nBounds, nAnd = 220, 80, 3000
@@ -102,6 +102,9 @@ func checkC02(ctx *Ctx) {
 			if r.Chance(15) {
 				k = 4
 			}
+			if r.Chance(5) {
+				k = r.Range(12, 40) // long lists: text of several hundred bytes
+			}
 			var texts []string
 			var preds []func(any) bool
 			var bvs []any
@@ -131,6 +134,9 @@ func checkC02(ctx *Ctx) {
 		for _, osep := range syn.Or {
 			for i := 0; i < nAnd/(2*len(syn.Or)); i++ {
 				ng := r.Range(2, 3)
+				if r.Chance(6) {
+					ng = r.Range(8, 20)
+				}
 				var texts []string
 				var preds []func(any) bool
 				var bvs []any
